@@ -22,6 +22,7 @@ type compiler struct {
 	scopes        []*scopeinfo
 	scopecnt      int
 	globalcnt     int
+	moduledepth   int
 	regexpCache   sync.Map
 }
 
@@ -189,6 +190,11 @@ func (c *compiler) compileImport(i *Import) error {
 }
 
 func (c *compiler) compileModule(q *Query, alias string) error {
+	// A module importing itself should not crash the compiler.
+	if c.moduledepth++; c.moduledepth > 100 {
+		return errors.New("module imports are nested too deeply")
+	}
+	defer func() { c.moduledepth-- }()
 	scope := c.scopes[len(c.scopes)-1]
 	scope.depth++
 	defer func(l int) {
